@@ -604,7 +604,9 @@ def typed_value(rng, ty, structs, depth=0):
         n = int(m.group(2)) if m.group(2) else rng.randint(1, 3)
         return [typed_value(rng, m.group(1), structs, depth + 1) for _ in range(n)]
     if ty == "number":
-        return {"q": [rng.choice([0, 1, 1, 2, 2, 3]), 1]}
+        # whole numbers (any of them may be a loop limit), a fifth of them delivered as floats (2.0), some negative
+        n = rng.choice([0, 1, 1, 2, 2, 3, -1])
+        return {"q": [n, 1, True]} if rng.random() < 0.2 else {"q": [n, 1]}
     if ty == "boolean":
         return rng.random() < 0.5
     if ty == "string":
